@@ -1946,6 +1946,15 @@ func (p *Parser) parseRateLimit() (*ast.RateLimit, error) {
 
 // parseStatement parses a statement
 func (p *Parser) parseStatement() (ast.Statement, error) {
+	// Blocks nest through statements (if { if { ... } }), not through
+	// parseExpr, so they need the depth guard too: without it a file of a
+	// million nested ifs ran the parser's goroutine out of stack, which the
+	// Go runtime turns into an unrecoverable crash of the whole process.
+	p.depth++
+	if p.depth > maxParseDepth {
+		return nil, fmt.Errorf("maximum nesting depth exceeded (%d levels)", maxParseDepth)
+	}
+	defer func() { p.depth-- }()
 	switch p.current().Type {
 	case QUESTION:
 		// ? validate_fn(args)                 -- validation assertion
